@@ -123,10 +123,13 @@ func c03Directive(c *runner.Ctx, t *term.Term, src string, styles []int, seeds [
 			c.Violate("directive-compile-panic:"+d.name, fmt.Sprint(co.Panic), cas)
 			continue
 		}
-		if !d.ok {
-			if term.IsAny(t.T) || t.T == term.NilT {
+		if !d.ok && (term.IsAny(t.T) || t.T == term.NilT) {
+			// no static kind: Compile may accept or reject, but whatever
+			// it accepts must still return exactly the directive's type
+			if co.Err != nil {
 				continue
 			}
+		} else if !d.ok {
 			if co.Err == nil {
 				c.Violate("directive-of-wrong-kind-accepted:"+d.name+":"+kindClass(t.T), fmt.Sprintf("%s accepted an expression of static type %s", d.name, typeName(t.T)), cas)
 			} else {
@@ -462,6 +465,23 @@ func init() {
 				c03Sound(c, src, styles, seeds, "", t.HasConstDivZero())
 				if idx%2 == 0 {
 					c03Directive(c, t, src, styles[:3], seeds[:3])
+				}
+				if idx%5 == 4 {
+					// expressions without a static kind (dynamic operands, mixed
+					// conditional arms): whatever a directive accepts must still
+					// return exactly the directive's type
+					func() {
+						defer func() { recover() }()
+						ga := term.NewGen(r, true)
+						ta := ga.Of([]reflect.Type{term.AnyT, term.AnyT, term.ArrT, term.MapT}[r.Intn(4)], 2+r.Intn(12))
+						if r.Bool() {
+							// index into an array literal: statically interface{}
+							ta, _ = term.Index(ga.Sc, term.Array(ga.Of(term.BoolT, 2), ga.Of(term.IntT, 2), ga.Of(term.StrT, 1)), term.Int(r.Intn(3)))
+						}
+						if ta != nil {
+							c03Directive(c, ta, term.Print(ta, term.PrintOpts{}), styles[:3], seeds[:3])
+						}
+					}()
 				}
 				// single-fault mutants
 				sites := c03Sites(t, r)
